@@ -112,6 +112,10 @@ def container_case(draw, tier="quick"):
     if not ram > 0:
         ram = 1
     case = {"tps": tps, "cpus": cpus, "ram": ram, "ops": ops}
+    if nops >= 3 and draw(st.booleans()):
+        # the operators form a DAG (parents among earlier operators); the assigned order is the insertion order, which is
+        # a valid execution order but in general not the one a sort by depth or parent count would give
+        case["parents"] = [sorted(set(draw(st.lists(st.integers(0, i - 1), min_size=0, max_size=3)))) if i else [] for i in range(nops)]
     if draw(st.booleans()):
         # if the container is OOM-killed its unfinished operators are run again in a second container of another size
         case["retry"] = {"cpus": draw(st.sampled_from([1, 1, 2, 3] + CPUS) | st.integers(1, 64)),
@@ -158,14 +162,17 @@ def strategy(tier):
     return st.one_of(container_case(tier), container_case(tier), container_case(tier), container_case(tier), rescaled_retry_case(tier))
 
 
-def build_pipeline(ops_spec, name="p"):
+def build_pipeline(ops_spec, name="p", parents=None):
     from eudoxia.workload.pipeline import Segment, Pipeline
     from eudoxia.utils import Priority
     p = Pipeline(name, Priority.BATCH_PIPELINE)
     prev = None
     real = []
-    for segs in ops_spec:
-        o = p.new_operator([prev] if prev else None)
+    for k, segs in enumerate(ops_spec):
+        if parents is not None:
+            o = p.new_operator([real[j] for j in parents[k]] or None)
+        else:
+            o = p.new_operator([prev] if prev else None)
         for sg in segs:
             o.add_segment(Segment(baseline_cpu_seconds=sg["cpu"], cpu_scaling=sg["law"], memory_gb=sg["mem"],
                                   storage_read_gb=sg["read"]))
@@ -211,7 +218,9 @@ def run_case(spec, tick_cap=None):
         out.label("tps_low")
 
     pool = ResourcePool(0, 1000, 10 ** 9, tps)
-    p, real = build_pipeline(ops)
+    p, real = build_pipeline(ops, parents=spec.get("parents"))
+    if spec.get("parents"):
+        out.label("dag_order")
     t = 0
     terminal = None
     try:
